@@ -266,6 +266,30 @@ func runC08(c *Case) {
 			violate("altered:"+stage+":"+cls, fmt.Sprintf("%s: wrote %s, read %s", stage, short(want), got))
 		}
 	}
+	// columns whose names differ only in the case of a non-ASCII letter are different columns (SQLite
+	// folds ASCII only): each keeps its own value
+	{
+		tu := tname(c, "uni")
+		su := TableSpec{Name: tu, Cols: `k PRIMARY KEY, "ä", "Ä", "straße", "STRASSE"`, Store: st.Name, Client: "wu", Prefix: "uni", EPN: epn}
+		if err := conn.Create(su); err != nil {
+			violate("create:non-ascii-columns", "a table with the columns ä, Ä, straße, STRASSE is refused: "+err.Error())
+		} else {
+			conn.Exec(`insert into `+tu+`(k, "ä", "Ä", "straße") values (1, ?, ?, ?)`, "lower", int64(7), []byte{1, 2})
+			conn.Exec(`update `+tu+` set "STRASSE" = ? where k = 1`, 2.5)
+			rows, err := conn.Rows(`select k, "ä", "Ä", "straße", "STRASSE" from ` + tu)
+			c.Count("non_ascii_column_tables", 1)
+			want := "i:1|t:lower|i:7|b:0102|r:2.5"
+			if err != nil || len(rows) != 1 || rows[0] != want {
+				violate("altered:columns-differing-in-non-ascii-case", fmt.Sprintf("wrote %s into four columns whose names differ only in non-ASCII case, read %v (%v)", want, rows, err))
+			}
+			conn.Exec(`insert into `+tu+`(k, "Ä") values (2, ?)`, "only-upper")
+			rows, err = conn.Rows(`select k, "ä", "Ä", "straße", "STRASSE" from ` + tu + ` where k = 2`)
+			if want := "i:2|NULL|t:only-upper|NULL|NULL"; err != nil || len(rows) != 1 || rows[0] != want {
+				violate("altered:columns-differing-in-non-ascii-case", fmt.Sprintf("wrote %s, read %v (%v)", want, rows, err))
+			}
+			conn.Exec("drop table " + tu)
+		}
+	}
 	for i, v := range vals {
 		id := int64(i + 1)
 		cls := c08Class(v)
